@@ -101,10 +101,12 @@ class TS:
                 if not (c.arst.is_const and int(c.arst) == 0):
                     raise Unsupported("async reset")
             elif isinstance(c, _nir.Memory):
-                self.mems[i] = c
                 self.wports[i] = []
+                if c.width > 0:  # zero-width memories carry no state
+                    self.mems[i] = c
             elif isinstance(c, _nir.SyncReadPort):
-                self.rports.append(i)
+                if c.width > 0:
+                    self.rports.append(i)
                 self._chk_clk(c)
             elif isinstance(c, (_nir.Instance, _nir.IOBuffer, _nir.Initial, _nir.AnyValue)):
                 raise Unsupported(type(c).__name__)
